@@ -20,15 +20,22 @@ def expr(cases, jobs):
         vv = S.value_coq(S.value_from_json(jobs[i]["values"][vi]))
         if rv["<"].startswith("EXC:") or rv[">"].startswith("EXC:"):
             return "(%d, %d, [96])" % (i, vi)
-        return "(%d, %d, spec_mirror_case %s %s %s %s ++ model_encode_case %s %s %s %s)" % (
+        fresh = ""
+        fr = res.get(i, {}).get("fresh") or {}
+        if vi == 0 and all(k in fr and not fr[k].startswith("EXC:") for k in ("a<", "a>", "b<", "b>")):
+            # an untouched message, asked for either order first (KF-H messages that cannot be encoded at all are C10's)
+            fresh = " ++ fresh_case %s %s %s %s %s" % (tt, codec.hex_coq(fr["a<"]), codec.hex_coq(fr["a>"]),
+                                                        codec.hex_coq(fr["b<"]), codec.hex_coq(fr["b>"]))
+        return "(%d, %d, spec_mirror_case %s %s %s %s ++ model_encode_case %s %s %s %s%s)" % (
             i, vi, tt, vv, codec.hex_coq(rv["<"]), codec.hex_coq(rv[">"]),
-            tt, vv, codec.obs_flat(rv, "<"), codec.obs_flat(rv, ">"))
+            tt, vv, codec.obs_flat(rv, "<"), codec.obs_flat(rv, ">"), fresh)
     return f
 
 
 def on_bad(chk, d, r, i, vi):
     if r and r[0] in (95, 96):
-        d["kind"] = "little/big-endian encodings are not scalar-wise mirrors with zero padding"
+        d["kind"] = ("little/big-endian encodings are not scalar-wise mirrors with zero padding (95), or an untouched message does "
+                     "not encode to the canonical image of its default value in one of the orders (96: [le first; be second; le second; be first] ok flags)")
         d["result"] = r[:8]
         chk.violation("mirror-%d-%d" % (i, vi), d)
     else:
@@ -50,7 +57,7 @@ def main():
     cases, jobs = codec.corpus_jobs("C19", rng, ["encode"])
     if cases:
         codec.run_value_cases(chk, cases, jobs, "corpus", expr(cases, jobs), on_bad)
-    cases, jobs = codec.standard_streams(chk, rng, ["encode"], random_quick=300, random_thorough=5000)
+    cases, jobs = codec.standard_streams(chk, rng, ["encode", "fresh"], random_quick=300, random_thorough=5000)
     codec.run_value_cases(chk, cases, jobs, "gen", expr(cases, jobs), on_bad)
     # ---- C++ vector encoders: encode<little>(), encode<big>(), encode() [native] of the same object
     quick = chk.tier == "quick"
